@@ -435,14 +435,15 @@ fn run_dbg_child(ctx: &Ctx, rep: &mut Report) {
         return;
     }
     let root = crate::verif_root();
-    let bin = format!("{root}/target/dbg/vcheck");
+    let bin = super::c14::worker_bin("dbg");
     if !std::path::Path::new(&bin).exists() {
         if let Some(s) = rep.subs.first_mut() {
             s.inconclusive.push(format!("{bin} is missing: the debug-assertions pass did not run (./check builds it)"));
         }
         return;
     }
-    let out = format!("{root}/target/c17-dbg-{}.json", std::process::id());
+    let out = format!("{}/c17-dbg-{}.json", std::env::temp_dir().to_string_lossy(), std::process::id());
+    let _ = &root;
     let status = std::process::Command::new(&bin)
         .arg("C17")
         .arg(ctx.tier.as_str())
